@@ -74,6 +74,10 @@ class SeqWorld:
         self.env = sim.SeqEnv(chooser, fp=self._fp, **envkw)
         self.net = sim.Net(self.env, router, clock=lambda: self.env.time)
         self.env.net = self.net
+        from . import vclock, tshim
+        vclock.install(lambda: self.env.time)
+        tshim.install()
+        tshim.SCHED[0] = None
         self.backend = sim.SimBackend(self.net) if variant == "sync" else sim.AsyncSimBackend(self.net)
         self.result = None
 
@@ -111,10 +115,13 @@ class SeqWorld:
 
 def _mc_root_sync(fn):
     def __mc_root__():
+        from .tshim import SeqDeadlock
         try:
             return ("ok", fn())
         except sim.Hang as e:
             return ("hang", e)
+        except SeqDeadlock as e:
+            return ("deadlock", e)
         except Exception as e:
             return ("exc", e)
     return __mc_root__()
